@@ -236,7 +236,13 @@ def task(args):
         n = cfg[0]
         for i in range(n):
             for mode in modes:
-                for ch, (kind, info) in explore(lambda c: run_one(cfg, i, mode, c)):
+                def guarded(c, cfg=cfg, i=i, mode=mode):
+                    try:
+                        return run_one(cfg, i, mode, c)
+                    except Exception as e:
+                        return f"output_malformed:{type(e).__name__}", repr(e)
+
+                for ch, (kind, info) in explore(guarded):
                     p.evaluations += 1
                     if kind is not None:
                         p.violation(f"C11:{kind}|shapes={'differ' if cfg[2].startswith('differ') else 'equal'}|p={cfg[3]}"
